@@ -212,28 +212,30 @@ func encodeAndSplitGSM7Packed(content string, frameKey byte) ([][]byte, datacodi
 	}
 
 	perMsgLength := datacoding.SplitBy153
-	msgCount := ceil(len(contentBytes), perMsgLength)
+
+	// Part boundaries first: a part holds up to perMsgLength septets, but a non-final part must
+	// not end with the indicator of an extended character (cutting there would split the two
+	// septets), so it packs one septet less and the indicator moves to the next part. The number
+	// of parts is only known once all boundaries are.
+	bounds := make([]int, 0, ceil(len(contentBytes), perMsgLength)+1)
+	for begin := 0; begin < len(contentBytes); {
+		end := begin + perMsgLength
+		if end >= len(contentBytes) {
+			end = len(contentBytes)
+		} else if contentBytes[end-1] == gsm7encoding.EscapeSequence {
+			end--
+		}
+		bounds = append(bounds, end)
+		begin = end
+	}
+	msgCount := len(bounds)
 	if msgCount > maxLongSmsParts {
 		return nil, 0, ErrTooManyParts
 	}
 	res := make([][]byte, 0, msgCount)
 
-	begin, end := 0, perMsgLength
-	for idx := 0; idx < msgCount; idx++ {
-		if end > len(contentBytes) {
-			end = len(contentBytes)
-		}
-		if begin >= end {
-			continue
-		}
-
-		// Boundary case: When the last byte of a non-final part happens to be the indicator for an extended character,
-		// cutting at this point would split these two bytes.
-		// To avoid this scenario, the preceding part should pack one byte less, ensuring that 0x1b is placed within the next byte.
-		if idx != msgCount-1 && contentBytes[end-1] == gsm7encoding.EscapeSequence {
-			end--
-		}
-
+	begin := 0
+	for idx, end := range bounds {
 		// append UDHI
 		contentByte := make([]byte, 0, (end-begin)+datacoding.UDHILength)
 		contentByte = append(contentByte, longMsgHeader6ByteFrameKey)
@@ -250,7 +252,6 @@ func encodeAndSplitGSM7Packed(content string, frameKey byte) ([][]byte, datacodi
 		res = append(res, contentByte)
 
 		begin = end
-		end += perMsgLength
 	}
 
 	return res, dataCoding, nil
